@@ -69,6 +69,21 @@ static void ev_ijtocell(H3Index o, int i, int j) {
     fprintf(vt_out, ",\"i\":%d,\"j\":%d,\"r\":%u,\"c\":", i, j, r); vt_word(c);
     fprintf(vt_out, ",\"r2\":%u,\"i2\":%d,\"j2\":%d}\n", r2, b.i, b.j);
 }
+/* coordinates at which one of the linear forms of the aperture-7 parent step (3i-j, i+2j | 2i+j, 3j-i) is close to a multiple of
+ * 2^31 / 2^32 while the other is small: where 32-bit arithmetic wraps round to a plausible value */
+static void ij_overflow_aliases(H3Index o) {
+    static const long long FORMS[2][4] = {{3, -1, 1, 2}, {2, 1, -1, 3}};
+    static const long long BIG[] = {4294967296LL, -4294967296LL, 2147483648LL, -2147483648LL, 6442450944LL, -6442450944LL};
+    for (int f = 0; f < 2; f++) for (int b = 0; b < 6; b++) for (int which = 0; which < 2; which++) {
+        long long a = FORMS[f][0], bb = FORMS[f][1], c = FORMS[f][2], d = FORMS[f][3];
+        long long X = which ? 0 : BIG[b], Y = which ? BIG[b] : 0;
+        long long i0 = (d * X - bb * Y) / 7, j0 = (-c * X + a * Y) / 7;
+        for (int di = -2; di <= 2; di++) for (int dj = -2; dj <= 2; dj++) {
+            long long i = i0 + di, j = j0 + dj; if (i > 2147483647LL || i < -2147483648LL || j > 2147483647LL || j < -2147483648LL) continue;
+            ev_ijtocell(o, (int)i, (int)j);
+        }
+    }
+}
 static void ev_ijnbhd(H3Index o, int k) {
     int64_t sz; maxGridDiskSize(k, &sz); H3Index *d = calloc(sz, sizeof(H3Index)); gridDisk(o, k, d);
     fputs("{\"e\":\"ijNbhd\",\"o\":", vt_out); vt_word(o); fprintf(vt_out, ",\"k\":%d,\"cs\":[", k);
@@ -160,6 +175,7 @@ int main(int argc, char **argv) {
                     for (int t = 0; t < (quick ? 10 : 40); t++) ev_ijtocell(o, c0.i + (int)vt_randn(15) - 7, c0.j + (int)vt_randn(15) - 7);
                 }
                 for (int t = 0; t < 4; t++) ev_ijtocell(o, EXT[vt_randn(12)], vt_randn(2) ? EXT[vt_randn(12)] : (int)vt_randn(9) - 4);
+                if (i % (quick ? 40 : 8) == 0) ij_overflow_aliases(o);
                 if (res > 0) { H3Index p; cellToParent(o, res - 1, &p); ev_mismatch(o, p); ev_mismatch(p, o); }
                 ev_dist(o, walk(o, 3 + (int)vt_randn(6)));
             }
